@@ -174,7 +174,8 @@ type c03Case struct {
 }
 
 var c03Foreign = []string{"unary-explicit-ok-with-body", "unary-ok-status-no-body", "stream-trailer-explicit-ok", "stream-trailer-status-no-metadata",
-	"stream-reset-with-trailer", "stream-reset-bare", "stream-reset-after-body", "unary-nonok-with-body", "stream-error-trailer-with-details"}
+	"stream-reset-with-trailer", "stream-reset-bare", "stream-reset-after-body", "unary-nonok-with-body", "stream-error-trailer-with-details",
+	"stream-reset-untyped-with-trailer", "stream-reset-untyped-bare", "stream-reset-lowercase-type-with-trailer", "stream-reset-lowercase-type-after-body"}
 
 func c03Gen(tier string, seed int64, idx int) c03Case {
 	r := rng(seed, idx, "c03")
@@ -342,7 +343,24 @@ func c03Matrix(tier string, seed int64, idx int, c c03Case, res *core.Result) {
 	h := bed.NewHooks()
 	h.Jitter = uint64(idx) + 11
 	h.Install()
-	b := bed.New(bed.Opts{Serialise: c.Ser, Cap: idx % 3})
+	// every other matrix case runs behind pass-through server interceptors (plain or chained): the
+	// status must come through them unchanged
+	var sopts []goat.ServerOption
+	passU := func(ctx context.Context, req any, info *grpc.UnaryServerInfo, handler grpc.UnaryHandler) (any, error) {
+		return handler(ctx, req)
+	}
+	passS := func(srv any, ss grpc.ServerStream, info *grpc.StreamServerInfo, handler grpc.StreamHandler) error {
+		return handler(srv, ss)
+	}
+	switch (idx / 8) % 4 {
+	case 1:
+		sopts = []goat.ServerOption{goat.UnaryInterceptor(passU), goat.StreamInterceptor(passS)}
+		res.Stat("cases_with_server_interceptors", 1)
+	case 3:
+		sopts = []goat.ServerOption{goat.ChainUnaryInterceptor(passU, passU), goat.ChainStreamInterceptor(passS, passS)}
+		res.Stat("cases_with_server_interceptors", 1)
+	}
+	b := bed.New(bed.Opts{Serialise: c.Ser, Cap: idx % 3, SrvOpts: sopts})
 	cc := b.Conns[0]
 	gates := NewGates()
 	for i, rp := range c.RPCs {
@@ -562,6 +580,16 @@ func c03ForeignRun(tier string, seed int64, idx int, c c03Case, res *core.Result
 			case "stream-reset-after-body":
 				p.Send(ctx, &wire.Rpc{Id: id, Header: hdr(in), Body: body("m1")},
 					&wire.Rpc{Id: id, Header: hdr(in), Reset_: &goatorepo.Reset{Type: "RST_STREAM"}, Trailer: &goatorepo.Trailer{}})
+			// a foreign implementation need not spell the reset's type the way goat's server does
+			case "stream-reset-untyped-with-trailer":
+				p.Send(ctx, &wire.Rpc{Id: id, Header: hdr(in), Reset_: &goatorepo.Reset{}, Trailer: &goatorepo.Trailer{}})
+			case "stream-reset-untyped-bare":
+				p.Send(ctx, &wire.Rpc{Id: id, Header: hdr(in), Reset_: &goatorepo.Reset{}})
+			case "stream-reset-lowercase-type-with-trailer":
+				p.Send(ctx, &wire.Rpc{Id: id, Header: hdr(in), Reset_: &goatorepo.Reset{Type: "rst_stream"}, Trailer: &goatorepo.Trailer{}})
+			case "stream-reset-lowercase-type-after-body":
+				p.Send(ctx, &wire.Rpc{Id: id, Header: hdr(in), Body: body("m1")},
+					&wire.Rpc{Id: id, Header: hdr(in), Reset_: &goatorepo.Reset{Type: "rst_stream"}, Trailer: &goatorepo.Trailer{}})
 			}
 		}
 	}
@@ -653,11 +681,11 @@ func init() {
 	core.Register(&core.Prop{
 		ID:    "C03",
 		Level: "exploration",
-		Rule:  "cases: (matrix) 24 RPCs per case cycling 4 RPC kinds x 11 error kinds (status x3, wrapped status, plain, context canceled/deadline, error whose GRPCStatus says OK, nil, io.EOF, wrapped io.EOF) x all 16 non-OK codes x message class {plain, empty, Unicode, 4 KiB} x 0..3 Any details x position {before any message, between, after the last}, unary also with a body alongside the error; (race) handler fails while the caller still sends, the trailer held in the server writer by a rendezvous hook while 1..4 late bodies arrive; (loss-before-trailer) the handler sends a message and fails but the connection is lost - with io.EOF, a wrapped io.EOF, a custom error or context.Canceled - before the trailer arrives: the caller must not observe success; (loss-after-trailer) the handler sends one message and fails; the caller starts receiving only after the complete response was read and the transport then failed: it must still see the messages and the status; (foreign) 9 reply shapes from a scripted peer (explicit OK + body, status without metadata, resets with/without trailer / after a body). Every case is non-trivial; distinct = distinct descriptors.",
+		Rule:  "cases: (matrix) 24 RPCs per case cycling 4 RPC kinds x 11 error kinds (status x3, wrapped status, plain, context canceled/deadline, error whose GRPCStatus says OK, nil, io.EOF, wrapped io.EOF) x all 16 non-OK codes x message class {plain, empty, Unicode, 4 KiB} x 0..3 Any details x position {before any message, between, after the last}, unary also with a body alongside the error; (race) handler fails while the caller still sends, the trailer held in the server writer by a rendezvous hook while 1..4 late bodies arrive; (loss-before-trailer) the handler sends a message and fails but the connection is lost - with io.EOF, a wrapped io.EOF, a custom error or context.Canceled - before the trailer arrives: the caller must not observe success; (loss-after-trailer) the handler sends one message and fails; the caller starts receiving only after the complete response was read and the transport then failed: it must still see the messages and the status; (foreign) 13 reply shapes from a scripted peer (explicit OK + body, status without metadata, resets - typed RST_STREAM, untyped, lower-case - with/without trailer / after a body). Half of the matrix cases run behind pass-through server interceptors (plain / chained pairs). Every case is non-trivial; distinct = distinct descriptors.",
 		Plan:  func(tier string, seed int64) int { return tierN(tier, 144, 4800) },
 		Run:   c03Run,
 		RequiredStats: func(string) []string {
-			return []string{"trailer_held_in_writer", "foreign_cases", "rpcs", "loss_after_trailer_cases", "loss_before_trailer_cases"}
+			return []string{"trailer_held_in_writer", "foreign_cases", "rpcs", "loss_after_trailer_cases", "loss_before_trailer_cases", "cases_with_server_interceptors"}
 		},
 	})
 }
